@@ -174,8 +174,8 @@ func VerifMatchArrays(m *Match) (counts []int, arrays [][]int, balancing bool) {
 }
 
 // VerifClockPoint, when set, is called at the schedule points of makeDeadline (1: clockEnd has been
-// read, 2: the time has been read and the provisional deadline computed, 3: between the two
-// critical sections), outside every critical section, so that a harness can hold a goroutine there
+// read, 2: the time has been read and the provisional deadline computed), outside the critical
+// section, so that a harness can hold a goroutine there
 // and force an interleaving of concurrent makeDeadline calls.
 var VerifClockPoint atomic.Pointer[func(point int)]
 
